@@ -412,7 +412,7 @@ def check_abandoned(ctx, R="C13.abandon"):
         ctx.ok(R, calls[0], "for/until is a try-interrupt with one condition and one aborting handler")
     else:
         ctx.finding(R, isb, "for/until try-interrupt", "`do X for/until` is no longer runTryInterrupt(self, agent, body, [condition], [handler])")
-    check_duration(ctx, R)
+    # (the step at which `do X for T` fires is C12's clause: check_duration below is run by C12.scenario only)
 
 
 def check_duration(ctx, R):
